@@ -22,7 +22,6 @@ Init == l = 1 /\ h = [none |-> TRUE] /\ pre = [none |-> TRUE] /\ fails = <<>> /\
 
 Tag(p, S, ev) == { [p |-> p, w |-> x, l |-> l, x |-> exec, e |-> ev.e, d |-> ""] : x \in S }
 TagD(p, S, ev, d) == { [p |-> p, w |-> x, l |-> l, x |-> exec, e |-> ev.e, d |-> d] : x \in S }
-SetToSeq(S) == CHOOSE f \in [1..Cardinality(S) -> S] : \A i, j \in 1..Cardinality(S) : i # j => f[i] # f[j]
 AddFails(S) == IF Len(fails) >= MaxFails \/ S = {} THEN fails ELSE fails \o SetToSeq(S)
 
 IsNoteOn(ev) == ev.e = "NoteOn" /\ ev.v > 0
